@@ -7,6 +7,7 @@ From Coq Require Import List NArith Bool.
 Import ListNotations.
 Require Import Parser TagSpec TagProofs TagUtf8 TagScanText TagPipeline TagReject TagLines TagRun Pipe Drivers SFetch.
 Require Import SBase SPrim SDir.
+Require Import ScanBlockProofs ScalarContext2Pos TagContext.
 Open Scope N_scope.
 
 (* ---------------------------------------------------------------------------------------------- *)
@@ -533,3 +534,29 @@ Proof. split; reflexivity. Qed.
 Example spec_percent_decode : percent_decode [101;37;67;51;37;65;57] = Some [101;233] /\ percent_decode [37;101;50;37;56;50;37;65;67;120;37;70;48;37;57;70;37;57;56;37;56;48] = Some [8364;120;128512]
   /\ percent_decode [37;67;51] = None /\ percent_decode [37;90;90] = None /\ percent_decode [37;67;48;37;65;70] = None.
 Proof. repeat split; vm_compute; reflexivity. Qed.
+
+(* ---------------------------------------------------------------------------------------------- *)
+(* (i) TEXT level, other node positions (Proofs/TagContext.v).  The tagged scalar as the ENTRY of a      *)
+(*     block sequence: the whole scanner on  "- " <tag> " x" LF  delivers StreamStart,                   *)
+(*     BlockSequenceStart, BlockEntry, the ONE TTag token with the handle and the DECODED suffix at       *)
+(*     index 2 / line 1 / column 2 spanning exactly the tag text, the scalar, BlockEnd, StreamEnd - for   *)
+(*     every tag text of Spec/TagSpec.v.  (Scanner half only; the parser half for this token list is      *)
+(*     C16_resolve / C16_node_tag.)                                                                       *)
+(* ---------------------------------------------------------------------------------------------- *)
+Theorem C16_text_entry_token_stream : forall ttext h sfx,
+  tag_text ttext h sfx ->
+  exists t0 pre rest, scan_str (45 :: 32 :: ttext ++ tail_x)
+    = (t0 :: pre ++ tag_tok (mkm 2 1 2) (length ttext) h sfx :: rest, SEnded) /\
+    snd t0 = TStreamStart /\ map snd pre = [TBlockSequenceStart; TBlockEntry] /\
+    map snd rest = [TScalar Plain [120]; TBlockEnd; TStreamEnd].
+Proof. exact scan_tagged_entry. Qed.
+Print Assumptions C16_text_entry_token_stream.
+
+(* "- !e%C3%A9 x\n", computed: the tag of the entry is ("!", "e" U+00E9) *)
+Example ex_text_entry_computed : tags_of_run false [45;32;33;101;37;67;51;37;65;57;32;120;10]
+  = ([None; Some ([33], [101;233])], PDone).
+Proof. vm_compute. reflexivity. Qed.
+(* "k: !!str x\n", computed *)
+Example ex_text_value_computed : tags_of_run false [107;58;32;33;33;115;116;114;32;120;10]
+  = ([None; None; Some ([116;97;103;58;121;97;109;108;46;111;114;103;44;50;48;48;50;58], [115;116;114])], PDone).
+Proof. vm_compute. reflexivity. Qed.
